@@ -13,11 +13,14 @@
    workers, which keeps every invariant pointwise.
 
    Three protocols:
-     Pold   : the tree before the fix commit — main exits without touching the files
-     Pcur   : the current tree — main removes every registered file before it exits
-     Pfixed : (not implemented; the repair of finding F5) creation and registration are one
+     Pold   : the tree before the first fix commit — main exits without touching the files
+     Pcur   : the tree after the first fix commit (F11) — main removes every registered file
+              before it exits; tempfile() and the push to the registry are separate steps
+     Pfixed : the tree after the second fix commit (F5) — creation and registration are one
               atomic step under the registry lock, and are refused once the registry was
-              closed by the handler or by main's final sweep
+              closed by the handler or by main's final sweep (NAMED_TEMP_FILES_CLOSED)
+   Which one the current tree implements is read from the source on every run
+   (tools/gen/tempproto.py -> Gen/TempProto.v, [current_proto]).
    Definitions only; proofs are in Proofs/TempFilesProofs.v. *)
 From Coq Require Import List Bool Arith.
 Import ListNotations.
